@@ -449,3 +449,156 @@ Proof.
     + split; [apply Hgoal; exact I|].
       split; [reflexivity|]. split; [reflexivity|]. split; [reflexivity|]. intros _. reflexivity.
 Qed.
+
+Lemma miss_head_good W m c m' r :
+  miss_good W m -> miss_head m c = (m', r) ->
+  miss_good W m' /\ mi_key m' = mi_key m /\ mi_var m' = mi_var m /\ mi_closing m' = mi_closing m /\
+  mi_out m' = mi_out m /\
+  (mi_closing m = false ->
+   res_spec (w_full W (mi_key m)) (fun t => t) false (mi_out m) (mi_out m') r).
+Proof.
+  intros Hg H. unfold miss_head in H.
+  destruct (mi_closing m) eqn:Ecl.
+  { inversion H; subst. split; [exact Hg|]. split; [reflexivity|]. split; [reflexivity|].
+    split; [assumption|]. split; [reflexivity|]. discriminate. }
+  destruct m as [v k mk kf mx inn buf recs cl ini ph o]. simpl in *. subst cl.
+  destruct Hg as (Hin & Hkf & Hcl & Hst & Hout & Hpre & Hbuf). simpl in *.
+  assert (Hph : ph = PFg) by (apply Hcl; reflexivity). subst ph.
+  assert (Hns : in_stopped inn = false) by (apply Hst; discriminate).
+  specialize (Hout eq_refl).
+  destruct (inner_call false c inn) as [inn' r0] eqn:Ec.
+  destruct (inner_call_spec _ _ _ _ _ _ Hin Ec) as (Hin' & Hs' & Hr).
+  rewrite Hns in Hs'. inversion H; subst m' r; clear H; simpl.
+  assert (Hp : in_pos inn' = in_pos inn).
+  { destruct r0 as [t| |e]; [destruct Hr as (_ & Hp & _)|destruct Hr as (Hp & _)|]; assumption. }
+  split; [apply miss_good_intro; simpl|].
+  - exact Hin'.
+  - exact Hkf.
+  - exact Hcl.
+  - intros _. exact Hs'.
+  - intros _. rewrite Hp. exact Hout.
+  - exact Hpre.
+  - unfold buf_good in *; simpl in *. rewrite Hp. exact Hbuf.
+  - split; [reflexivity|]. split; [reflexivity|]. split; [reflexivity|]. split; [reflexivity|].
+    intros _. destruct r0 as [t| |e]; unfold res_spec.
+    + destruct Hr as (Hn & _ & _). rewrite map_id'. split; [|reflexivity].
+      assert (Hlt : (in_pos inn < length (w_full W k))%nat) by (apply nth_error_Some; congruence).
+      rewrite Hout. rewrite firstn_length_self by lia. exact Hn.
+    + destruct Hr as (_ & Hd). split; [reflexivity|]. f_equal.
+      rewrite Hout. apply firstn_full. apply Hd. exact Hns.
+    + reflexivity.
+Qed.
+
+Lemma miss_good_bg W v k mk kf mx inn b recs ini ph o :
+  inner_good (w_full W k) inn -> kf = w_kf W v k -> ph <> PFg ->
+  (ph <> PFin -> in_stopped inn = false) ->
+  o = firstn (length o) (w_full W k) ->
+  buf_good (mkMI v k mk kf mx inn b recs true ini ph o) (w_full W k) ->
+  miss_good W (mkMI v k mk kf mx inn b recs true ini ph o).
+Proof.
+  intros H1 H2 H3 H4 H5 H6. apply miss_good_intro; simpl; auto.
+  - split; [discriminate|]. intro; contradiction.
+  - discriminate.
+Qed.
+
+Lemma miss_good_fin W v k mk kf mx inn b recs ini o :
+  inner_good (w_full W k) inn -> kf = w_kf W v k ->
+  o = firstn (length o) (w_full W k) ->
+  miss_good W (mkMI v k mk kf mx inn b recs true ini PFin o).
+Proof.
+  intros H1 H2 H3. apply miss_good_bg; auto.
+  - discriminate.
+  - intro H; contradiction H; reflexivity.
+  - unfold buf_good; simpl. destruct b; exact I.
+Qed.
+
+Lemma miss_stop_good W srv m :
+  miss_good W m ->
+  miss_good W (miss_stop srv m) /\ mi_out (miss_stop srv m) = mi_out m /\
+  mi_key (miss_stop srv m) = mi_key m /\ mi_var (miss_stop srv m) = mi_var m.
+Proof.
+  intro Hg. unfold miss_stop.
+  destruct (mi_closing m) eqn:Ecl; [auto|].
+  destruct m as [v k mk kf mx inn buf recs cl ini ph o]. simpl in *. subst cl.
+  destruct Hg as (Hin & Hkf & Hcl & Hst & Hout & Hpre & Hbuf). simpl in *.
+  assert (Hph : ph = PFg) by (apply Hcl; reflexivity). subst ph.
+  assert (Hns : in_stopped inn = false) by (apply Hst; discriminate).
+  match goal with |- context [if ?c then _ else _] => destruct c end; simpl.
+  - split; [|auto]. apply miss_good_fin; auto. apply inner_good_stop; assumption.
+  - split; [|auto]. apply miss_good_bg; auto; try discriminate.
+Qed.
+
+Lemma strip_ts_idem t : strip_ts (strip_ts t) = strip_ts t.
+Proof. reflexivity. Qed.
+
+Lemma norm_v_idem v t : norm_v v (norm_v v t) = norm_v v t.
+Proof. destruct v; reflexivity. Qed.
+
+Lemma hit_call_good W b h c h' r :
+  hit_good W h -> hit_call b h c = (h', r) ->
+  hit_good W h' /\ hi_key h' = hi_key h /\ hi_var h' = hi_var h /\ hi_stopped h' = hi_stopped h /\
+  (hi_stopped h = false ->
+   res_spec (w_full W (hi_key h)) (norm_v (hi_var h)) b (hi_out h) (hi_out h') r).
+Proof.
+  intros (Hit & Hpos & Hout) H. unfold hit_call in H.
+  destruct (ctx_err c) as [e|].
+  { inversion H; subst. repeat split; auto. }
+  destruct (hi_stopped h) eqn:Est.
+  { inversion H; subst. repeat split; auto. discriminate. }
+  destruct (nth_error (hi_items h) (hi_pos h)) as [t|] eqn:En.
+  - assert (Hlt : (hi_pos h < length (hi_items h))%nat) by (apply nth_error_Some; congruence).
+    assert (Hnm : norm_v (hi_var h) t = t).
+    { rewrite Hit in En. rewrite nth_error_map in En.
+      destruct (nth_error (w_full W (hi_key h)) (hi_pos h)); simpl in En; [|discriminate].
+      inversion En. apply norm_v_idem. }
+    assert (Hspec : nth_error (map (norm_v (hi_var h)) (w_full W (hi_key h))) (length (hi_out h))
+                    = Some (norm_v (hi_var h) t)).
+    { rewrite Hnm, <- Hit, Hout. rewrite firstn_length_self by lia. exact En. }
+    destruct b; inversion H; subst h' r; clear H; simpl.
+    + split; [|repeat split; auto].
+      unfold hit_good; simpl. split; [exact Hit|]. split; [lia|].
+      rewrite Hout. symmetry. apply firstn_snoc. exact En.
+    + split; [|repeat split; auto]. unfold hit_good. auto.
+  - inversion H; subst h' r; clear H.
+    split; [unfold hit_good; auto|]. repeat split; auto.
+    intros _. rewrite Hout, <- Hit.
+    assert (hi_pos h = length (hi_items h)) by (apply nth_error_none_len; assumption).
+    rewrite firstn_full by assumption.
+    rewrite Hit, map_map. apply map_ext. intro a. apply norm_v_idem.
+Qed.
+
+Lemma byp_call_good W b k inn o c inn' r :
+  byp_good W k inn o -> inner_call b c inn = (inn', r) ->
+  let o' := if b then (match r with RItem t => o ++ [t] | _ => o end) else o in
+  byp_good W k inn' o' /\ in_stopped inn' = in_stopped inn /\
+  (in_stopped inn = false -> res_spec (w_full W k) (fun t => t) b o o' r).
+Proof.
+  intros (Hin & Hout & Hpre) Ec.
+  destruct (inner_call_spec _ _ _ _ _ _ Hin Ec) as (Hin' & Hs' & Hr).
+  destruct r as [t| |e]; simpl.
+  - destruct Hr as (Hn & Hp & Hns). specialize (Hout Hns).
+    assert (Hlt : (in_pos inn < length (w_full W k))%nat) by (apply nth_error_Some; congruence).
+    destruct b.
+    + split; [|split; [exact Hs'|]].
+      * unfold byp_good. split; [exact Hin'|].
+        assert (Ho' : o ++ [t] = firstn (in_pos inn') (w_full W k)).
+        { rewrite Hp, Hout. symmetry. apply firstn_snoc. exact Hn. }
+        split; [intros _; exact Ho'|].
+        rewrite Ho'. rewrite firstn_length_self; [reflexivity|]. destruct Hin' as (_ & _ & Hle). exact Hle.
+      * intros _. unfold res_spec. rewrite map_id'. split; [|reflexivity].
+        rewrite Hout. rewrite firstn_length_self by lia. exact Hn.
+    + split; [|split; [exact Hs'|]].
+      * unfold byp_good. split; [exact Hin'|]. split; [|exact Hpre]. intros _. rewrite Hp. exact Hout.
+      * intros _. unfold res_spec. rewrite map_id'. split; [|reflexivity].
+        rewrite Hout. rewrite firstn_length_self by lia. exact Hn.
+  - destruct Hr as (Hp & Hd).
+    assert (Hb : byp_good W k inn' o).
+    { unfold byp_good. split; [exact Hin'|]. split; [|exact Hpre].
+      intro Hs. rewrite Hp. apply Hout. congruence. }
+    destruct b; (split; [exact Hb|split; [exact Hs'|]]); intro Hns; unfold res_spec;
+      (split; [reflexivity|]); f_equal; rewrite (Hout Hns); apply firstn_full; apply Hd; exact Hns.
+  - assert (Hb : byp_good W k inn' o).
+    { unfold byp_good. split; [exact Hin'|]. split; [|exact Hpre].
+      intro Hs. rewrite Hr. apply Hout. congruence. }
+    destruct b; (split; [exact Hb|split; [exact Hs'|]]); intros _; reflexivity.
+Qed.
